@@ -163,7 +163,11 @@ def op_reopen(run):
     import pptx
 
     data = run.save_and_check("stream")
-    run.prs = pptx.Presentation(io.BytesIO(data))
+    stream = io.BytesIO()
+    stream.write(data)
+    if run.rnd.random() < 0.5:
+        stream.seek(run.rnd.choice([0, 4]))  # else: left at the end, as the save that filled it left it
+    run.prs = pptx.Presentation(stream)
     # the re-opened deck becomes the subject: rebuild baselines from it
     run.hashes, run.val_baseline = {}, {}
     from . import histories, xsdkit
@@ -1010,6 +1014,12 @@ def op_chart_fmt(run):
         n = len(list(se.values))
         if n == 0:
             raise Rejected()
+        # a few points in any order, some of them twice (formatting a point is get-or-add of its c:dPt / c:dLbl, kept in idx order)
+        for i in r.sample(range(n), min(n, r.choice([0, 1, 2, 3]))) * r.choice([1, 1, 2]):
+            se.points[i].format.fill.solid()
+            se.points[i].format.fill.fore_color.rgb = gen.rgb(r)
+            if r.random() < 0.4:
+                se.points[i].data_label.font.bold = True
         pt = se.points[r.choice([r.randrange(n), r.randrange(n), -1, n])]  # out of range: documented IndexError
         pt.format.fill.solid()
         pt.format.fill.fore_color.rgb = gen.rgb(r)
